@@ -38,6 +38,11 @@ func checkC16(c *Ctx) {
 		"the GetKEKByLabelFunc / GetDeviceKeysByDevEUIFunc callbacks are pure lookups (configuration, not analysed)",
 	}
 	flowSelfTest(c)
+	// the task-pipeline rules recognise the two literal task lists and the context struct; what the pipelines compute is
+	// decided end to end by R9 on the cores themselves, so an unrecognised shape of these rules is a note (§7)
+	for _, rl := range []string{"R2.keys", "R2.kek", "R2.mic-enc", "R3.defuse", "R4.order", "R4.errvar", "R4.loop", "R8.echo", "R8.joinnonce"} {
+		r.Advisory(rl, "R9.join-e1", "R9.rejoin-e1")
+	}
 	c16KeyBlocks(c)
 	c16Stateless(c)
 	lists := c16Pipelines(c)
@@ -968,6 +973,18 @@ func c16Codes(c *Ctx) {
 			checkTerm(c, rule, fmt.Sprintf("%s/not-found#%d", fnKey(fn), n), ipos(c, s.Instr), "result code when the device lookup returns ErrDevEUINotFound", s.Args[4], flow.ConstString("UnknownDevEUI"))
 		}
 		if n == 0 {
+			// a verdict needs the lookup callback to be invoked in this very function; when the lookup lives in a helper
+			// the guard is on the helper's error and the shape is not the recognised one
+			direct := false
+			for _, s := range flow.Calls(fn, func(name string) bool { return name == "dyn" }) {
+				if len(s.Args) > 0 && s.Args[0].Equal(flow.Param(0, "config", x.lookup)) {
+					direct = true
+				}
+			}
+			if !direct {
+				c.Run.Unknown(rule, fnKey(fn)+"/not-found", fpos(c, fn), "a branch for "+x.lookup+" returning ErrDevEUINotFound that answers through a return*ReqError helper", "the callback is not invoked in this function (a helper performs the lookup): outside the recognised shape")
+				continue
+			}
 			c.Run.Bad(rule, fnKey(fn)+"/not-found", fpos(c, fn), "a branch for "+x.lookup+" returning ErrDevEUINotFound that answers through a return*ReqError helper", "no helper call is guarded by err == ErrDevEUINotFound (error of "+errT.String()+")")
 		}
 	}
